@@ -60,6 +60,15 @@ import (
 //        S an allowance), B (granted nothing), T; every order incl. the attack orders [G, B] and
 //        [B, G].  The decorator must check every message on its own: a grant from G is no
 //        authorisation for B's message; the whole tx must be rejected and nothing of B's change.
+//        Variant mz…: the signers a message DECLARES (metadata.signers) differ from the accounts
+//        that sign the transaction: some messages declare NO signer at all (the SDK then demands
+//        no signature for them; the rest of the transaction supplies its signatures), preferably
+//        of the request types without a ValidateBasic, which reach the decorator in that shape.
+//        The monitors judge by the transaction's REAL signers (the keys that signed it).
+//   e0   single message with creator = B (or A) and an EMPTY metadata.signers, tx signed by A
+//   lnh  light-node histories (c03_lightnode_test.go): licences bought / sold, registered,
+//        authenticated, legacy grantees, and the sender-ignoring migration run by strangers at
+//        any point; monitor light-node-cross-principal-write after every step.
 //   dnh / cbh  directed multi-step histories (see "Directed multi-step histories" below): a denom
 //        handed over and then used by former admins / the account in its name / the new admin,
 //        also through the wasm bindings; batch confirmations with sender, orchestrator, eth signer,
@@ -429,6 +438,12 @@ func c03EmptyBlock(w *ZooWorld) sdk.Context {
 // removed, or a new entry keyed by the victim / a new record tagged with it appeared.
 // Entries that end up exactly as an empty block would leave them are the block's doing.
 func c03Change(before, after, noise map[string][]string) (int, []string) {
+	lvl, desc, _ := c03ChangeAltered(before, after, noise)
+	return lvl, desc
+}
+
+// c03ChangeAltered is c03Change plus: was a unit that existed before altered or removed?
+func c03ChangeAltered(before, after, noise map[string][]string) (int, []string, bool) {
 	keys := map[string]bool{}
 	for k := range before {
 		keys[k] = true
@@ -437,6 +452,7 @@ func c03Change(before, after, noise map[string][]string) (int, []string) {
 		keys[k] = true
 	}
 	lvl := 0
+	altered := false
 	var desc []string
 	for k := range keys {
 		if strings.Join(after[k], ",") == strings.Join(noise[k], ",") {
@@ -465,6 +481,9 @@ func c03Change(before, after, noise map[string][]string) (int, []string) {
 		if len(short) > 90 {
 			short = short[:90] + "…"
 		}
+		if removed > 0 {
+			altered = true
+		}
 		if removed > 0 || addedOwned > 0 {
 			lvl = 2
 			desc = append(desc, fmt.Sprintf("~%s(-%d+%d)", short, removed, added))
@@ -476,7 +495,7 @@ func c03Change(before, after, noise map[string][]string) (int, []string) {
 		}
 	}
 	sort.Strings(desc)
-	return lvl, desc
+	return lvl, desc, altered
 }
 
 // c03ResourceRefused: the transaction was refused on resource grounds by the SDK decorators that
@@ -583,7 +602,7 @@ func TestC03(t *testing.T) {
 	record := func(o obs) {
 		antePass := o.viaGov || o.res.Code == 0 && o.res.BlockErr == "" && !o.res.Panicked || len(o.res.Events) > 0
 		ok := o.res.OK()
-		chgLvl, diff := c03Change(o.before, o.after, o.noise)
+		chgLvl, diff, altered := c03ChangeAltered(o.before, o.after, o.noise)
 		chg := chgLvl > 0
 		// --- the property, evaluated on the observation with the Go-side tables
 		verdict := "fine"
@@ -596,7 +615,9 @@ func TestC03(t *testing.T) {
 					}
 				}
 			}
-			if _, open := c03Open[o.typ]; open {
+			if _, open := c03Open[o.typ]; open && !altered {
+				// a handler that ignores its sender may ADD workflow / migration records; it is
+				// never a licence to alter or remove what a principal's own transactions wrote
 				authorised = true
 			}
 			if o.viaGov {
@@ -650,11 +671,11 @@ func TestC03(t *testing.T) {
 		if verdict == "violation" {
 			r.Hit("cross-principal-write", fmt.Sprintf("%s %s: state attributed to principal %d changed: %v (code=%d log=%.200s)", o.typ, o.sc, o.victim, diff, o.res.Code, o.res.Log), line)
 		}
-		unauthorisedScenario := o.sc == "a" || o.sc == "e" || strings.HasPrefix(o.sc, "d")
+		unauthorisedScenario := o.sc == "a" || o.sc == "e" || o.sc == "e0" || strings.HasPrefix(o.sc, "d")
 		if unauthorisedScenario && ok {
 			r.Hit("unauthorised-accepted", fmt.Sprintf("%s scenario %s was accepted", o.typ, o.sc), line)
 		}
-		if (o.sc == "a" || o.sc == "e" || o.sc == "d3") && antePass {
+		if (o.sc == "a" || o.sc == "e" || o.sc == "e0" || o.sc == "d3") && antePass {
 			r.Hit("ante-bypassed", fmt.Sprintf("%s scenario %s passed the ante chain", o.typ, o.sc), line)
 		}
 		r.Case(o.typ+"/"+o.sc+"/"+red, ok || chg || !antePass)
@@ -662,6 +683,39 @@ func TestC03(t *testing.T) {
 
 	all := ZooAll()
 	ci := 0
+	// request types whose stateless validation passes with an EMPTY metadata.signers (no
+	// ValidateBasic, or one that does not look at the list): only those reach the authorisation
+	// decorator without declaring a signer.  Found by trying, on a stream of its own.
+	noVB := map[string]bool{}
+	{
+		prng := rand.New(rand.NewSource(r.Seed*7919 + 17))
+		for _, m := range all {
+			actor := users[0].acc
+			if m.NeedsValidator {
+				actor = vals[0].acc
+			}
+			var msg sdk.Msg
+			if p := faRecover(func() { msg = m.Build(w, actor, prng, false) }); p != "" || msg == nil {
+				continue
+			}
+			if !ZooSetMeta(msg, actor.Addr.String()) {
+				continue
+			}
+			if p := faRecover(func() {
+				if vb, has := c03WireCopy(fa, msg).(sdk.HasValidateBasic); !has || vb.ValidateBasic() == nil {
+					noVB[m.Name] = true
+				}
+			}); p != "" {
+				continue
+			}
+		}
+		var names []string
+		for n := range noVB {
+			names = append(names, n)
+		}
+		sort.Strings(names)
+		t.Logf("C03: request types that may declare no signer: %v", names)
+	}
 
 	// ---- multi-message transactions ---------------------------------------------------
 	var userTypes, valTypes []ZooMsg
@@ -704,6 +758,15 @@ func TestC03(t *testing.T) {
 			}
 		}
 		hostile := r.Rng.Intn(6) == 0
+		// declared signers != transaction signers: which messages declare no signer at all
+		undeclared := map[int]bool{}
+		if r.Rng.Intn(4) == 0 {
+			k := r.Rng.Intn(len(pattern))
+			undeclared[k] = true
+			if len(pattern) > 2 && r.Rng.Intn(3) == 0 {
+				undeclared[(k+1)%len(pattern)] = true
+			}
+		}
 		var msgs []sdk.Msg
 		var toks []string
 		var creators []int
@@ -725,10 +788,25 @@ func TestC03(t *testing.T) {
 			if i > 0 && r.Rng.Intn(3) == 0 {
 				m, _ = ZooByName(strings.Split(toks[i-1], ";")[0]) // same type twice
 			}
-			msg := m.Build(w, c.acc, r.Rng, hostile)
+			if undeclared[i] && r.Rng.Intn(4) != 0 {
+				// a type whose stateless validation does not look at the signers list
+				var cand []ZooMsg
+				for _, x := range types {
+					if noVB[x.Name] {
+						cand = append(cand, x)
+					}
+				}
+				if len(cand) > 0 {
+					m = cand[r.Rng.Intn(len(cand))]
+				}
+			}
+			msg := m.Build(w, c.acc, r.Rng, hostile && !undeclared[i])
 			ms := []c03Principal{S}
 			if two {
 				ms = [][]c03Principal{{S}, {T}, {S, T}, {T, S}}[r.Rng.Intn(4)]
+			}
+			if undeclared[i] {
+				ms = nil
 			}
 			var addrs []string
 			var ids []int
@@ -742,6 +820,10 @@ func TestC03(t *testing.T) {
 			creators = append(creators, c.pid)
 			metaSigners = append(metaSigners, ids)
 			toks = append(toks, fmt.Sprintf("%s;%s;%d;%s", m.Name, c03Ids(ids...), c.pid, authorityFieldOf(m, msg, byAddr)))
+		}
+		if len(txSigners) == 0 {
+			// every message undeclared: a transaction nobody has to sign; S signs it anyway
+			addSigner(S)
 		}
 		if g := fa.GrantFee(G.acc, S.acc); !g.OK() {
 			t.Fatalf("grant: %s %s", g.Log, g.BlockErr)
@@ -776,18 +858,28 @@ func TestC03(t *testing.T) {
 		antePass := ok || len(res.Events) > 0
 		chgLvl, diff := c03Change(before, after, noise)
 		// every message individually: did its creator sign, or grant to one of its signers?
-		allAuthorised, victimAuthorised := true, false
+		// (a) as the decorator sees it: the signers the message declares; (b) the property: the
+		// accounts whose keys really signed the transaction
+		allAuthorised, allAuthorisedTx, victimAuthorised := true, true, false
 		for i, c := range creators {
-			a := false
+			a, aTx := false, false
 			for _, sg := range metaSigners[i] {
 				if sg == c || grants[[2]int{c, sg}] {
 					a = true
 				}
 			}
+			for _, sg := range txSignerIDs {
+				if sg == c || grants[[2]int{c, sg}] {
+					aTx = true
+				}
+			}
 			if !a {
 				allAuthorised = false
 			}
-			if a && c == victim.pid {
+			if !aTx {
+				allAuthorisedTx = false
+			}
+			if a && aTx && c == victim.pid {
 				victimAuthorised = true
 			}
 			if _, open := c03Open[strings.Split(toks[i], ";")[0]]; open {
@@ -807,6 +899,14 @@ func TestC03(t *testing.T) {
 		sc := "m" + pattern
 		if two {
 			sc = "m2" + pattern
+		}
+		if len(undeclared) > 0 {
+			sc = strings.Replace(sc, "m", "mz", 1)
+			for i := range pattern {
+				if undeclared[i] {
+					sc += fmt.Sprint(i)
+				}
+			}
 		}
 		line := fmt.Sprintf("mtx %s %s %s %d %s %d %s", sc, c03Ids(txSignerIDs...), grantTok(), victim.pid, h, chgLvl, strings.Join(toks, " "))
 		resTok := "rej"
@@ -837,7 +937,17 @@ func TestC03(t *testing.T) {
 		if verdict == "violation" {
 			r.Hit("cross-principal-write", fmt.Sprintf("multi-message tx %s: state attributed to principal %d changed: %v (code=%d log=%.200s)", sc, victim.pid, diff, res.Code, res.Log), line)
 		}
-		if !allAuthorised && antePass {
+		if len(undeclared) > 0 {
+			r.Stat("multi:undeclared-signers")
+			if !pre {
+				r.Stat("multi:undeclared-signers-reaches-ante")
+			}
+		}
+		if !allAuthorisedTx && antePass {
+			r.Hit("ante-bypassed", fmt.Sprintf("multi-message tx %s, really signed by %v, passed the ante chain although the creator of one of its messages neither signed the transaction nor granted an allowance to an account that signed it (accepted=%v)", sc, txSignerIDs, ok), line)
+		} else if !allAuthorised && antePass && len(undeclared) == 0 {
+			// direct consequence for transactions whose messages declare exactly accounts that
+			// signed: the creator must be among / have granted to the signers of ITS message
 			r.Hit("ante-bypassed", fmt.Sprintf("multi-message tx %s passed the ante chain although a message's creator neither signed nor granted to a signer (accepted=%v)", sc, ok), line)
 		}
 		r.Case("multi/"+sc+"/"+strings.Join(toks, " "), ok || chgLvl > 0 || !antePass)
@@ -855,6 +965,8 @@ func TestC03(t *testing.T) {
 			dir.denomHistory()
 		case 7:
 			dir.confirmHistory()
+		case 1, 5:
+			dir.lightNodeHistory()
 		}
 		if r.Rng.Intn(10) < 3 {
 			multiCase()
@@ -869,9 +981,9 @@ func TestC03(t *testing.T) {
 		}
 		A, B := pick2(pool)
 		// applicable scenarios
-		scs := []string{"ok", "a", "b", "e"}
+		scs := []string{"ok", "a", "b", "e", "e0"}
 		if m.NeedsAuthority {
-			scs = []string{"d", "d3", "gov", "e"}
+			scs = []string{"d", "d3", "gov", "e", "e0"}
 			if len(m.IdentityFields) > 0 && m.IdentityFields[0].Name == "Authority" {
 				scs = append(scs, "d2")
 			}
@@ -919,6 +1031,18 @@ func TestC03(t *testing.T) {
 			o.creator, o.metaSigners = B.pid, []int{B.pid}
 			deliver = func() FATxResult {
 				ZooSetMeta(msg, B.acc.Addr.String(), B.acc.Addr.String())
+				return w.DeliverRawMeta(A.acc, msg)
+			}
+		case "e0":
+			// no declared signer at all: in B's name, or (e0s) in the sender's own
+			who := B
+			if r.Rng.Intn(3) == 0 {
+				who, o.sc = A, "e0s"
+			}
+			msg = m.Build(w, who.acc, r.Rng, hostile)
+			o.creator, o.metaSigners = who.pid, nil
+			deliver = func() FATxResult {
+				ZooSetMeta(msg, who.acc.Addr.String())
 				return w.DeliverRawMeta(A.acc, msg)
 			}
 		case "c1":
